@@ -150,8 +150,12 @@ def binop(it, op, a, b, node, inplace=False):
         ta, tb = str_term(a), str_term(b)
         if ta is not None and tb is not None:
             return SStr(sym.S_CAT(ta, tb))
-    if isinstance(a, SSet) and isinstance(b, SSet) and op is ast.BitOr:
-        return SSet(z3.SetUnion(a.term, b.term))
+    if isinstance(a, SSet) and isinstance(b, SSet) and op in (ast.BitOr, ast.BitAnd, ast.Sub):
+        t = {ast.BitOr: z3.SetUnion, ast.BitAnd: z3.SetIntersect, ast.Sub: z3.SetDifference}[op](a.term, b.term)
+        if inplace:
+            a.term = t  # s |= t mutates the set object (aliases see it)
+            return a
+        return SSet(t)
     # text
     if isinstance(a, (str, SFmt)) and isinstance(b, (str, SFmt)) and op is ast.Add:
         if isinstance(a, str) and isinstance(b, str):
@@ -418,12 +422,16 @@ def _as_cond(it, v, node):
 def contains(it, container, item, node):
     from .values import SSet
 
+    if isinstance(container, SSet) and sym.is_intlike(item):
+        return z3.IsMember(sym.to_z3(sym.to_int(item)), container.term)
     if isinstance(container, SSet):
         t = str_term(item)
         if t is None:
             it.outside("membership of a non-string in a set of names", node)
         return z3.IsMember(t, container.term)
     if isinstance(container, dict) and isinstance(item, (SObj, SCls)):
+        if type(container) is not dict:
+            return item in container  # e.g. IdMap: keyed by id(), decided by the real __contains__
         return any(k is item for k in container)  # identity-keyed lookup
     if isinstance(container, (tuple, list)):
         conds = []
@@ -478,6 +486,11 @@ def getitem(it, base, key, node):
             except TypeError:
                 it.raise_(TypeError, "unhashable", node=node)
         if isinstance(key, (SObj, SCls)):
+            if type(base) is not dict:
+                try:
+                    return base[key]  # IdMap: the real identity-keyed lookup
+                except KeyError:
+                    it.raise_(KeyError, node=node)
             for k, v in base.items():
                 if k is key:
                     return v
